@@ -14,7 +14,11 @@
      toB         sealed by A for A, header rewritten to B (routed to the other pairing)
      payload/tag one bit of the sealed payload / of the 4-byte tag flipped
      innerp/innerm(d)  inner state number = nonce state number +1 / -1
-     rep(i)      bit-for-bit replay of the i-th advertisement of the same history *)
+     rep(i)      bit-for-bit replay of the i-th advertisement of the same history
+     fromB/fromX genuine, received from the address on record for pairing B / from an unrelated address
+     unkA        header id X (no pairing loaded), sealed with A's key for identifier X, received from A's address
+     unkAa       header id X, sealed with A's key for A's identifier, received from A's address
+     unkB        header id X, sealed with A's key for identifier X, received from B's address *)
 EXTENDS BleBroadcast, Json, IOUtils, SequencesExt
 
 CONSTANT CaseDepth
@@ -22,11 +26,12 @@ CONSTANT CaseDepth
 AllKeys == [p \in Pairings |-> TRUE]
 
 Rel == {[c |-> "gen", d |-> d] : d \in Offsets}
-       \cup {[c |-> x, d |-> 1] : x \in {"wrongkey", "foreignkey", "wrongaad", "toB", "payload", "tag"}}
+       \cup {[c |-> x, d |-> 1] : x \in {"wrongkey", "foreignkey", "wrongaad", "toB", "payload", "tag",
+                                         "fromB", "fromX", "unkA", "unkAa", "unkB"}}
        \cup {[c |-> x, d |-> d] : x \in {"innerp", "innerm"}, d \in {1, 2}}
        \cup {[c |-> "rep", d |-> i] : i \in 1..(CaseDepth - 1)}
 
-Base(l, d, pos) == [to |-> "A", k |-> "A", aad |-> "A", n |-> l["A"] + d, g |-> l["A"] + d,
+Base(l, d, pos) == [from |-> "A", to |-> "A", k |-> "A", aad |-> "A", n |-> l["A"] + d, g |-> l["A"] + d,
                     iid |-> ((pos - 1) % Cardinality(Iids)) + 1, val |-> ((pos - 1) % Cardinality(Vals)) + 1,
                     dmg |-> "none"]
 Abs(r, l, prev, pos) ==
@@ -38,6 +43,11 @@ Abs(r, l, prev, pos) ==
          [] r.c = "toB"        -> [b EXCEPT !.to = "B"]
          [] r.c = "payload"    -> [b EXCEPT !.dmg = "payload"]
          [] r.c = "tag"        -> [b EXCEPT !.dmg = "tag"]
+         [] r.c = "fromB"      -> [b EXCEPT !.from = "B"]
+         [] r.c = "fromX"      -> [b EXCEPT !.from = "X"]
+         [] r.c = "unkA"       -> [b EXCEPT !.to = "X", !.aad = "X"]
+         [] r.c = "unkAa"      -> [b EXCEPT !.to = "X"]
+         [] r.c = "unkB"       -> [b EXCEPT !.to = "X", !.aad = "X", !.from = "B"]
          [] r.c = "innerp"     -> [b EXCEPT !.g = b.n + 1]
          [] r.c = "innerm"     -> [b EXCEPT !.g = b.n - 1]
          [] r.c = "rep"        -> IF r.d < pos THEN prev[r.d] ELSE NoAdv
